@@ -40,7 +40,17 @@ Guards (what keeps this from being stricter than the library):
   loader options of the query that first loaded it, so options of a later query reach
   its eager loads but not its lazy loads (by design).
 
-Fires on the unchanged tree (candidate genuine defects, each with its own mechanism;
+Findings (each with its own mechanism; the lazyload-reverse one was fixed in /repo by
+18929db, the subqueryload ones are registered as open known findings; a further
+candidate ``deferred-column-load-on-aliased-instance-drops-lazy-loader-options`` is rare:
+``a = select(aliased(A)).options(defer(a1.x), lazyload(a1.bs).options(with_expression(B.ex, ..)))``,
+then ``a.x`` (deferred load) makes the later lazy load of ``a.bs`` forget the nested
+option; with the plain entity it is kept).
+Another rare candidate: ``joined-collection-appender-on-replaced-collection:AttributeError``
+(``A.bs`` lazy="joined" at mapper level;
+``select(A).options(subqueryload(A.bs), joinedload(A.profile).joinedload(P.a))`` crashes with
+"'NoneType' object has no attribute '_sa_appender'" when an A has >= 2 bs).
+Fired on the unchanged tree when written (candidate genuine defects;
 minimal repros and proposed patches in selftest/C40/proposed_fixes):
 * ``subqueryload-m2o-deferred-fk:NoSuchColumnError`` - ``subqueryload()`` of a many-to-one
   whose foreign-key column is deferred / left out by ``load_only`` raises
@@ -715,8 +725,15 @@ def one_query(ctx, sa, orm, R, zoo, engine, spy, q, tree, rng, warnings):
         if var["snap"] != base["snap"] or var["other"] != base["other"]:
             d = R.diff_snap(base["snap"], var["snap"]) or R.diff_snap(base["other"], var["other"])
             mech = classify(zoo, root, tree, assign, q, d, flavour, rc)
+            if q["alias"] and d and all(".expr:" in x for x in d):
+                # an instance loaded through an aliased entity loses the nested loader
+                # options (here with_expression) for later lazy loads once a deferred
+                # column of it has been loaded (refresh resets load_path to the plain
+                # mapper path); instances of the plain entity keep them
+                mech = "deferred-column-load-on-aliased-instance-drops-lazy-loader-options"
             ctx.violation(
-                mech if mech.startswith("subqueryload-m2o-deferred-fk") else f"graph-differ:{mech}",
+                mech if mech.startswith(("subqueryload-m2o-deferred-fk", "deferred-column-load-on-aliased"))
+                else f"graph-differ:{mech}",
                 f"loaded graph differs from all-lazy baseline: {d[:3]} assign={witness['assign']} flavour={flavour}",
                 dict(witness, diff=d),
             )
@@ -754,6 +771,12 @@ def classify_error(zoo, root, tree, assign, flavour, e, phase):
                     if (rv.direction == "m2o" and rv.fk_table == ri.fk_table and rv.fk_col == ri.fk_col
                             and rv.lazy != "select"):
                         return "lazyload-adds-reverse-lazyload-conflicting-with-user-option"
+    if name == "AttributeError" and "_sa_appender" in msg:
+        # one attribute of one instance populated by two loaders along two paths of the
+        # same query (e.g. subqueryload at the root + mapper-level joined when the
+        # instance is reached again through a nested joined path): the joined loader's
+        # cached appender points at a collection the other loader has replaced
+        return "joined-collection-appender-on-replaced-collection:AttributeError"
     return f"variant-raises:{name}/{phase}"
 
 
